@@ -239,6 +239,28 @@ Fixpoint any_restart (k : config) (prev : state) (l : list obs) : bool :=
   end.
 Definition premise_restarted (c : mcase) : bool := any_restart (mc_cfg c) empty_state (mc_trace c).
 
+(* ---- C05 monitor: the reason reflects the cause ---------------------------------------------------------------
+   a supervisor that is shutting down (an exit signal it received, a significant child, the restart intensity)
+   and terminates when the last awaited child has gone terminates with the RECORDED cause of the shutdown,
+   whatever reason that last child died with *)
+Definition reason_obs (k : config) (prev : state) (o : obs) : bool :=
+  match o_res o with
+  | RAct (Terminate r) => negb (shutting k prev) || (r =? sreason prev)
+  | _ => true
+  end.
+Fixpoint reason_from (k : config) (prev : state) (l : list obs) : bool :=
+  match l with
+  | [] => true
+  | o :: tl => reason_obs k prev o && reason_from k (o_state o) tl
+  end.
+Definition spec_reason_is_cause (c : mcase) : bool := reason_from (mc_cfg c) empty_state (mc_trace c).
+Fixpoint ended_shutdown (k : config) (prev : state) (l : list obs) : bool :=
+  match l with
+  | [] => false
+  | o :: tl => (match o_res o with RAct (Terminate _) => shutting k prev | _ => false end) || ended_shutdown k (o_state o) tl
+  end.
+Definition premise_ended_shutdown (c : mcase) : bool := ended_shutdown (mc_cfg c) empty_state (mc_trace c).
+
 (* ---- C10 monitor: the supervisor takes its children along ------------------------------------------------
    whenever the observed supervisor terminated through an action of its machine (any reason except a
    failed Spawn, whose error leaves ProcessRun directly), no child it started is still alive.
